@@ -43,6 +43,9 @@ def check(rep, tier, seed, specs=None, n_override=None):
         spec = r.get('spec')
         if r.get('tool_error'):
             te = r['tool_error']
+            if crash_mech(te, r) == 'TIMEOUT':
+                rep.count('tool_timeouts')
+                continue
             rep.count('tool_crashes')
             rep.add_violation('tool-crash', f"callVariant raised {te['type']}: {te['msg']} (MUST has {r.get('n_must')} peptides)\n"
                               f"{te['tb'][-700:]}", spec, mech=crash_mech(te, r), detail=r.get('describe'))
@@ -66,6 +69,8 @@ def check(rep, tier, seed, specs=None, n_override=None):
     tot = rep.counters.get('may_peptides', 0)
     rep.extra['gap_fraction'] = round(rep.counters.get('gap_peptides', 0) / tot, 4) if tot else None
     rep.extra['cases_with_empty_gap'] = rep.counters.get('cases_empty_gap', 0)
+    if rep.counters.get('tool_timeouts', 0) > max(5, 0.02 * max(1, rep.evaluations)):
+        rep.inconclusive.append(f"{rep.counters['tool_timeouts']} cases hit the per-transcript wall-clock limit")
     if not rep.counters.get('collapse_pairs'):
         rep.inconclusive.append('collapse-pair monitor had zero evaluations')
     rep.min_nontrivial = 50 if specs and len(specs) > 200 else 1
@@ -77,8 +82,9 @@ def crash_mech(te, r=None):
         return 'KF-CRASH-DOWNSTREAM-EMPTY'
     if 'No reference edge was found' in msg and r and r.get('has_nested'):
         return 'KF-NESTED'
-    if 'Failed to finish transcript' in msg and 'call_peptide_circ_rna' in tb:
-        return 'KF-CIRC-HANG'
+    if 'Failed to finish transcript' in msg:
+        # the per-transcript wall-clock limit (90 s, all retries) was exhausted: a wall-clock event, never a verdict by itself
+        return 'KF-CIRC-HANG' if 'call_peptide_circ_rna' in tb else 'TIMEOUT'
     if te.get('type') == 'IndexError' and 'call_peptide_fusion' in tb and 'TVGNode.py' in tb and '_get_nth_rf_index' in tb:
         return 'KF-CRASH-FUSION-EMPTY-NODE'
     return None
